@@ -1,9 +1,95 @@
-"""C08 — JSON passes through unchanged (partial: the crate's own conversion code on every 64-bit scalar, Kani)."""
+"""C08 — JSON passes through unchanged.
+K: the crate's conversion code on every 64-bit scalar (real serde_json).
+M: text -> Variable::from_json (the crate's Deserialize visitor, driven by the JSON reader model) -> search('@') -> to_string (the crate's
+Serialize impl, driven by the JSON writer model) -> re-read: the value must equal the value the input text denotes (last duplicate key wins,
+order/nesting kept, strings code point by code point, integers exact, doubles bit-identical)."""
+import z3, json, time
+from mirsym.core import *
+from mirsym import models as MM, sym as SY, jsonmodel as JM
+from vf import explore as XP, par
+from vf.explore import Summary
+from .common import *
+from . import lexjob as LJ, pubconfirm as PC
 from .kscalar import run_kani_only
+
+PROG = None; SEED = 0
+NUMS = ['0', '-0', '1', '-1', '1.0', '1.5', '-1.5e3', '1e2', '18446744073709551615', '18446744073709551616', '-9223372036854775808', '-9223372036854775809', '9007199254740993', '1e308', '5e-324', '0.1', '1E-2', '123456789012345678']
+SCALARS = NUMS + ['null', 'true', 'false', '""', '"a"', '"\\u00e9"', '"\\ud834\\udd1e"', '"\\\\"', '"\\""', '"é𝄞"', '[]', '{}', '[null]', '{"z":[]}']
+TEMPLATES = [['X'], ['[', 'X', ',', 'Y', ']'], ['{"a":', 'X', ',"a":', 'Y', '}'], ['{"b":', 'X', ',"a":', 'Y', '}'], ['{"a":', 'X', ',"b":', 'Y', ',"a":null}'], ['[[', 'X', '],{"k":', 'Y', '}]'],
+             [' [ ', 'X', ' , ', 'Y', ' ] '], ['{"é":', 'X', ',"":', 'Y', '}'], ['"', 'C', 'C', '"'], ['["', 'C', '",', 'X', ']'], ['{"k":"', 'C', 'C', '"}']]
+
+def job_rt(item):
+    tpl, deadline = item
+    prog = PROG; eng = Engine(prog); eng.deadline = deadline; S = Summary(); XP.init_decls(prog)
+    ex0 = PathExec(eng, []); rtc = XP.mk_runtime(ex0)
+    rp = XP.parse_expr(ex0, '@'); ident = rp.fields[0].v
+    from .funcjob import choose_from
+    def body(ex):
+        chars = []
+        for part in tpl:
+            if part in ('X', 'Y'): chars.extend(choose_from(ex, 'scalar', SCALARS))
+            elif part == 'C': chars.extend(SY.sym_chars(ex, 1))
+            else: chars.extend(part)
+        ex.u_chars = chars
+        r = ex.call('Variable::from_json', [Ptr(Cell(StrV(list(chars))), 'ref')])
+        k, want = JM.parse_json(ex, chars)
+        ex.u_want = (k, want)
+        if r.variant != 'Ok': return None if k == 'err' else 'a valid JSON text is rejected'
+        if k == 'err': return 'an invalid JSON text is accepted'
+        data = Ptr(Cell(r.fields[0].v), 'rc')
+        out = XP.interpret(ex, ident, data, '@', rtc)
+        if out.variant != 'Ok': return 'the identity query fails'
+        txt = ex.call('<Variable as ToString>::to_string', [Ptr(out.fields[0].v.cell, 'ref')])
+        ex.u_out = txt.chars
+        k2, back = JM.parse_json(ex, txt.chars)
+        if k2 == 'err': return 'the printed result is not valid JSON: ' + str(back)
+        bad = LJ.var_bad(back, want)
+        if bad is True: return 'the printed result denotes a different value than the input'
+        if bad is not None:
+            sat, _ = eng.check(ex.pc + [bad])
+            if sat: ex.assume(bad); return 'the printed result denotes a different value than the input (for some characters)'
+        return None
+    def on_path(ex, r):
+        S['paths'] += 1; S['outcomes'][r[0]] += 1
+        if r[0] == 'abort': return
+        if r[0] == 'unsupported': S.inconclusive(f'roundtrip {tpl}: ' + XP.short_unsupported(r[1])); return
+        sat, m = eng.check(ex.pc)
+        if not sat: return
+        text = LJ.text_of(ex.u_chars, m)
+        if r[0] == 'panic': S.cand('c05:json-panic', f'panics: {r[1]}', {'json': text}, {'op': 'json_identity', 'text': text}, expected='no panic'); return
+        if r[1] is not None:
+            S.cand('c08:roundtrip', r[1], {'json': text, 'printed': LJ.text_of(ex.u_out, m) if hasattr(ex, 'u_out') else None}, {'op': 'json_identity', 'text': text}, expected='printed JSON equal to the input'); return
+        S['vacuity']['roundtrip agrees' if ex.u_want[0] == 'ok' else 'invalid text rejected'] = True
+        if (S['paths'] + SEED) % 7 == 0:
+            a = XP.worker_native().request({'op': 'json_identity', 'text': text})
+            okk = (a.get('kind') == 'ok') == (ex.u_want[0] == 'ok') and (a.get('kind') != 'ok' or a.get('equal'))
+            if okk: S['replayed'] += 1
+            else: S['mismatches'].append({'harness': 'json roundtrip', 'text': text, 'native': a})
+            S.sample({'harness': 'json roundtrip', 'json': text, 'printed': a.get('printed')}, cap=2)
+    n, rest = eng.explore(body, on_path, max_paths=40000)
+    if rest: S.inconclusive(f'roundtrip {tpl}: cap/deadline after {n} paths')
+    S.absorb_engine(eng)
+    return S
+
+def confirm_m(c, nd, nr):
+    obs = {'dev': nd.request(c['request']), 'release': nr.request(c['request'])}
+    if c['key'].endswith('panic'): return any(o.get('kind') in ('panic', 'abort', 'hang') for o in obs.values()), obs
+    return any(o.get('kind') != 'ok' or not o.get('equal') for o in obs.values()), obs
+
 def run(run):
+    global PROG, SEED
+    PROG = run.program(); XP.init_decls(PROG); SEED = run.seed
+    run.native('dev')
+    XP.run_translator_validation(run, PROG, every=8 if run.tier == 'quick' else 1)
+    jobs = [(t, run.deadline) for t in TEMPLATES]
+    run_jobs(run, jobs, job_rt, 'mirsym: JSON text -> from_json (visitor MIR) -> @ -> to_string (Serialize MIR) -> re-read vs the denoted value')
+    run.cands = [c for c in run.cands if c['key'].startswith('c08:') or c['key'].startswith('c05:')]
+    run.confirm_all(confirm_m); run.cands = []
     run_kani_only(run, ['c08_value_roundtrip_scalars', 'c08_deserialize_visitor_scalars'],
-        bounds={'scalars': 'every serde_json::Number (any u64, any i64, any finite f64), null, booleans: TryFrom<&Value>, TryFrom<Value>, Serialize for Variable (to_value) and the Deserialize visitor (from_value) keep the exact Number '
-                           '(integer stays integer, u64 > i64::MAX stays unsigned, double bit-identical)'},
-        outside=['the text legs (decimal -> double accuracy, escape decoding, number printing) are executed by serde_json/ryu, whose parsing loops over symbolic bytes exceed what CBMC discharges here: no harness covers "all JSON texts"',
-                 'containers, strings, duplicate keys: the identity query on containers is decided symbolically by C01 (`@`), the conversions of containers are not claimed'],
-        assumes=['Rc::drop_slow and fmt::format are stubbed'], keyprefix='c08')
+        bounds={'scalars (K)': 'every serde_json::Number (any u64, any i64, any finite f64), null, booleans: TryFrom<&Value>, TryFrom<Value>, Serialize for Variable (to_value) and the Deserialize visitor (from_value) keep the exact Number '
+                               '(integer stays integer, u64 > i64::MAX stays unsigned, double bit-identical)',
+                'documents (M)': f'{len(TEMPLATES)} document templates (arrays, nested containers, duplicate keys incl. three occurrences, non-ASCII and empty keys, surrounding whitespace) whose holes range over {len(SCALARS)} scalar/number spellings '
+                                 '(integer limits of u64/i64 and one beyond, 2^53+1, subnormal, 1e308, -0, exponent forms, escapes, surrogate pairs) and symbolic Unicode scalar values inside strings'},
+        outside=['decimal -> double accuracy and number printing are executed inside serde_json/ryu (modelled, not verified): the "15 significant digits / 2 ulp" part of the property is NOT claimed',
+                 'documents outside the templates; conversions of containers to/from serde_json::Value (scalars only, Kani)'],
+        assumes=['mirsym/jsonmodel.py stands for serde_json\'s reader, models.tree_text for its writer (both differentially tested against native serde_json on every run of C09)', 'Rc::drop_slow and fmt::format are stubbed in the Kani harnesses'], keyprefix='c08')
